@@ -343,6 +343,69 @@ func init() {
 		}})
 	}
 
+	// C07: a call whose answer and deadline are both there when it starts to wait (either outcome is right for that call) must not
+	// affect later calls: each of those is answered one unit after it was sent, long before its deadline
+	register(&scenario{Name: "c07/photo-finish-then-calls", Props: []string{"C07"}, Quick: true, Run: func(t *T) {
+		p := newPeer(t, t.Transport, t.Version)
+		defer p.Shutdown()
+		p.onFrame = func(pc *peerConn, f frameIn) {
+			if stdReply(pc, f) {
+				return
+			}
+			if f.Typ == 1 && f.Cmd == 100 {
+				pc.Send(respFrame(f, 0, f.Body))
+			}
+			if f.Typ == 1 && f.Cmd == 101 {
+				go func() { time.Sleep(t.U(1)); pc.Send(respFrame(f, 0, f.Body)) }()
+			}
+		}
+		cl, err := t.NewClient(p, defaultCfg())
+		if err != nil {
+			t.Check("setup", false, "dial: %v", err)
+			return
+		}
+		defer cl.Close(nil)
+		ties, lost, slowest := 0, 0, time.Duration(0)
+		firstLost := ""
+		for round := 0; round < 6; round++ {
+			after := verifhook.Seq()
+			verifhook.Hold("conn.write:enqueued")
+			name := fmt.Sprintf("tie-%d", round)
+			t.DoAsync(cl, name, 100, 2)
+			if !verifhook.WaitParked("conn.write:enqueued", 1, t.U(10)) {
+				verifhook.Release("conn.write:enqueued")
+				t.Check("setup", false, "the caller did not reach the yield point after the hand-over to the transport")
+				return
+			}
+			_, ok := verifhook.WaitEvent("resp:lookup", after, t.U(10))
+			t.Sleep(3) // the deadline of the parked call (2 units) passes as well
+			verifhook.Release("conn.write:enqueued")
+			if !ok || !t.JoinTimeout(30) {
+				t.Check("setup", false, "the answer of the parked call was not dispatched, or the call did not return")
+				return
+			}
+			if t.Result(name).Err == nil {
+				ties++
+			}
+			for i := 0; i < 6; i++ {
+				t1 := time.Now()
+				r := t.Do(cl, fmt.Sprintf("judged-%d-%d", round, i), 101, 40)
+				d := time.Since(t1)
+				if d > slowest {
+					slowest = d
+				}
+				if r.Err != nil || r.Res == nil || tagOfBody(r.Res.Body) != *tagOf(r.ID) {
+					lost++
+					if firstLost == "" {
+						firstLost = fmt.Sprintf("round %d call %d returned after %v: %v", round, i, d.Round(time.Millisecond), r.Err)
+					}
+				}
+			}
+		}
+		t.Check("no_lost_wakeup", lost == 0, "%d of 36 calls answered one unit after they were sent (deadline 40 units, live connection) did not return their answer; they followed calls whose answer and deadline were both due when they started to wait (%d of 6 of those returned the answer): %s", lost, ties, firstLost)
+		t.ev("c07.photo", "ties_answered", ties, "slowest_ms", slowest.Milliseconds())
+	}})
+
 	// support: fast peer, many requests, no gates
 	register(&scenario{Name: "c07/fast-peer", Props: []string{"C07", "C05", "C17"}, Quick: true, Run: func(t *T) {
 		p := newPeer(t, t.Transport, t.Version)
